@@ -26,6 +26,7 @@ var replayFamilies = map[string]replayFamily{
 	"escape": {"twig/escape", "escape_test.go", "TestStickvcReplayEscape"},
 	"parse":  {"parse", "parse_test.go", "TestStickvcReplayParse"},
 	"value":  {".", "value_test.go", "TestStickvcReplayValue"},
+	"attr":   {".", "attr_test.go", "TestStickvcReplayAttr"},
 }
 
 type ReplayFile struct {
